@@ -37,6 +37,8 @@ package integrity
 //@ property C39
 //@ mode nosafety
 //@ loop 0 invariant 0 <= iter__ && iter__ <= len(parts) && (!result.Success || len(partChecksums) == iter__)
+//@ effect[C39:every-part-of-an-intact-object-was-verified] every loop_continues() if result.Success
+//@     needs before verifyPartChecksums($p, _) -> ($e) where $e == nil && $p.PartId == part.PartId && $p.SequenceNumber == part.SequenceNumber
 
 // Frame contracts: validating an object and asking for confirmation do not modify the validator's configuration
 // (ValidateAll relies on this between the verdict and the deletion).
